@@ -11,7 +11,8 @@ from protocol_common import CURVES
 
 def topo_str(b):
     g = '; '.join('%s(%s)' % (x['op'], ','.join(str(a) for a in x['a'])) for x in b['gates'])
-    s = '' if b['series']['input'] < 0 else ' series in%d<-g%d' % (b['series']['input'], b['series']['gate'])
+    s = '' if b['series']['input'] < 0 else ' series(%s) in%d<-g%d' % (b['series']['pattern'], b['series']['input'], b['series']['gate'])
+    s += ' late-import' if b.get('late') else ''
     return '%d inputs: %s x%d%s' % (b['nIn'], g, b['nInst'], s)
 
 
@@ -25,7 +26,7 @@ def run(ctx):
         'Fiat-Shamir hash: MiMC of the curve',
     ]
     r1 = ctx.tlc('GkrTopo', 'GkrTopo_g1.cfg', workers=1, timeout=900)
-    r4 = ctx.tlc('GkrTopo', 'GkrTopo_g4.cfg', workers=1, simulate=(60 if quick else 400), depth=40, timeout=900, deadlock=True)
+    r4 = ctx.tlc('GkrTopo', 'GkrTopo_g4.cfg', workers=1, simulate=(200 if quick else 800), depth=40, timeout=900, deadlock=True)
     seen, behs = set(), []
     for b in r1.beh + r4.beh:
         k = topo_str(b)
@@ -40,7 +41,11 @@ def run(ctx):
     curves = ['bn254', CURVES[1 + ctx.seed % (len(CURVES) - 1)]] if quick else CURVES
     for curve in curves:
         sub = behs if curve == 'bn254' else behs[::3]
-        res = ctx.harness(['c19replay', '--curve', curve, '--par', '16', '--tamperevery', '2' if quick else '1'], sub, timeout=7200)
+        res = ctx.harness(['c19replay', '--curve', curve, '--par', '16', '--tamperevery', '2' if quick else '1'], sub, timeout=7200, crash_ok=True)
+        if ctx.last_crash:
+            import re
+            ctx.report('gkr: solving a delegated circuit crashed the process: %s' % re.sub(r'\d+', 'N', ctx.last_crash)[:160], {'curve': curve, 'crash': ctx.last_crash})
+            continue
         if len(res) != len(sub):
             raise vlib.Infra('short GKR replay')
         byid = {b['id']: b for b in sub}
